@@ -83,7 +83,7 @@ def main(chk):
     sess = api.Session(ir, mode='real')
     P = [S.var(n) for n in PARAMS]
     tasks = []
-    tmo = 20000 if quick else 300000
+    tmo = 20000 if quick else 120000
     def add(name, pc, claim, core=True, info=None):
         tasks.append((name, list(pc), claim, tmo, core, info))
 
